@@ -57,6 +57,15 @@ CHECKS.update({
             "zero/constant batches followed by inference are recorded as Finite events.",
             "Known findings (near-max overflow, zero calibration batch with float8 activations) are matched by input class only; anything else is a violation.",
             "DESIGN.md 5/C16"),
+    "C14": ("Config.tla, Trace_Config.tla",
+            "TLC exhaustive model check of the argument-validation decision tables + replay of every configuration + TLC trace validation",
+            "Config.tla transcribes the checks of quantize_weight, quantize_activation, SymmetricQuantizer, AffineQuantizer, group() and the automatic "
+            "group-size loop in code order; TLC checks RejectIsValueError, UnsupportedRejected, AcceptedHonoured over the full cross product (8 shapes of rank 1-4 x "
+            "axis None/-2..2 x group_size None/1..2*numel x optimizer family x scale layout x qtypes, ~12k configurations) and AutoGroupDivides/AutoGroupMaximal for every "
+            "in_features 1..8192; every configuration is executed on the real entry point and the observed outcome class and result projection are validated by TLC against "
+            "the abstract Supported/Honoured predicates; quantized Linear/Conv2d modules are instantiated over a stratified set of sizes and run.",
+            "Supported(cfg) is written from the property statement, independently of the as-built checks. Rank 0 tensors, zero / negative group sizes are outside the statement's quantifier.",
+            "DESIGN.md 3.3, 5/C14"),
 })
 
 NOT_YET = {}
